@@ -104,6 +104,9 @@ type State struct {
 	ghost    map[string]*Term
 	path     []string // decisions (for witnesses)
 	blockedAt string
+	par           *ParState
+	nonReplayable bool
+	noBlock       bool
 	fmtArgs   []Value
 	inArm    int // > 0 while executing one arm of a diamond that is being merged
 	dead     bool
@@ -156,6 +159,10 @@ func (s *State) clone() *State {
 	}
 	if s.open != nil {
 		t.open = s.open.clone()
+	}
+	if s.par != nil {
+		t.par = s.par.clone()
+		// the running stack is t.frames (already cloned); keep par.stacks[cur] unused
 	}
 	return &t
 }
